@@ -149,18 +149,35 @@ def shared_decorator(f):
     return wrapper
 
 
-def make_callable(key, sig, is_async, view, fresh=False, deco=False):
+def make_callable(key, sig, is_async, view, fresh=False, deco=False, static_ctx=None):
     """function / coroutine function / view class whose body records its arguments and then does what the
     current case says.  Cached: the validator's signature cache is keyed by the function object
     (`fresh=True` builds new objects, for measuring cache growth)."""
-    ck = (key, json.dumps(sig), is_async, view, deco)
+    ck = (key, json.dumps(sig), is_async, view, deco, static_ctx)
     if ck in _FUNCS and not fresh:
         return _FUNCS[ck]
     params = render_params(sig)
     recv = '{' + ', '.join(f'{p["n"]!r}: {p["n"]}' for p in sig) + '}'
     a = 'async ' if is_async else ''
     ns = {'_perform': _perform, '_ctx_mark': ctx_mark}
-    if view:
+    if view and static_ctx is not None:
+        # the exposed member is a @staticmethod: no instance parameter to strip, every declared parameter is the caller's
+        # (what the instance was constructed with cannot be seen from inside; the marker is the configured one)
+        src = (
+            'import pjrpc.server\n'
+            'class V(pjrpc.server.ViewMixin):\n'
+            '    def __init__(self, context=None):\n'
+            '        super().__init__()\n'
+            '        self.context = context\n'
+            '    @staticmethod\n'
+            f'    {a}def vm({params}):\n'
+            f'        recv = {recv}\n'
+            f"        recv['<self.context>'] = {static_ctx!r}\n"
+            f'        return _perform({key!r}, recv)\n'
+        )
+        exec(src, ns)
+        obj = ns['V']
+    elif view:
         src = (
             'import pjrpc.server\n'
             'class V(pjrpc.server.ViewMixin):\n'
@@ -325,7 +342,9 @@ def build_dispatcher(cfg, is_async, fresh=False, coroutine_methods=None):
         key = m.get('key') or m['name']
         excluded = m.get('excluded') or []
         if m.get('view'):
-            cls = RaisingView if m.get('initRaises') else make_callable(key, m['sig'], coroutine_methods, True, deco=bool(m.get('deco')))
+            cls = RaisingView if m.get('initRaises') else make_callable(
+                key, m['sig'], coroutine_methods, True, deco=bool(m.get('deco')),
+                static_ctx=(('<CTX>' if m.get('ctx') else '<none>') if m.get('static') else None))
             if m.get('post') is not None or excluded:
                 _VerdictValidator(key, excluded).validate(cls.vm)
             d.registry.add_methods(pjrpc.server.dispatcher.ViewMethod(cls, 'vm', key, m.get('ctx'), bool(m.get('positional'))))
